@@ -245,20 +245,24 @@ class XPath1Parser(Parser[ta.XPathTokenType]):
         if self.tokenizer is None:
             self.tokenizer = self.create_tokenizer(self.symbol_table)
 
-        root_token = super().parse(source)
-        if root_token.label in ('sequence type', 'function test'):
-            raise root_token.error('XPST0003', "not allowed in XPath expression")
-
         try:
-            root_token.evaluate()  # Static context evaluation
-        except MissingContextError:
-            pass
+            root_token = super().parse(source)
+            if root_token.label in ('sequence type', 'function test'):
+                raise root_token.error('XPST0003', "not allowed in XPath expression")
 
-        if self.schema is not None:
-            # Static evaluation using a schema context
-            context = self.schema.get_context()
-            for _ in root_token.select(context):
+            try:
+                root_token.evaluate()  # Static context evaluation
+            except MissingContextError:
                 pass
+
+            if self.schema is not None:
+                # Static evaluation using a schema context
+                context = self.schema.get_context()
+                for _ in root_token.select(context):
+                    pass
+        except RecursionError:
+            msg = "expression too deeply nested: maximum recursion depth exceeded"
+            raise xpath_error('XPST0003', msg) from None
 
         return root_token
 
